@@ -53,6 +53,9 @@ class Gen(object):
         m, txt = src(self.rnd, c)
         return ('err', c, m, txt)
 
+    def blank(self):
+        return ('blank', self.rnd.choice(['NULL', 'Q77', 'v_blank', 'ZZ9']))
+
     def num(self, d, strict=False):
         """numeric-typed tree; strict: the value can never be a logical (needed under aggregates, whose
         treatment of logicals is not claimed), so pass-through functions get strict arguments too"""
@@ -70,6 +73,10 @@ class Gen(object):
                 arr = ('arr', r.choice(['{1,2}', '{3;4;5}', 'v_arr', 'A1:B2', '{1,2;3,4}']))
                 other = self.err() if r.random() < 0.7 else self.num(d - 1, True)
                 return ('b', r.choice('+-*/'), arr, other) if r.random() < 0.5 else ('b', r.choice('+-*/'), other, arr)
+            if r.random() < 0.08:
+                # a blank meets a possibly erroneous operand
+                other = self.err() if r.random() < 0.8 else self.num(d - 1, True)
+                return ('b', r.choice('+-*/'), self.blank(), other) if r.random() < 0.5 else ('b', r.choice('+-*/'), other, self.blank())
             return ('b', r.choice('+-*/'), self.any_num(d - 1), self.any_num(d - 1))
         if k < 0.72:
             arg = (lambda: self.num(d - 1, True)) if strict else (lambda: self.any_num(d - 1))
@@ -99,6 +106,8 @@ class Gen(object):
                 ops.append(('s', r.choice(['a', 'b', '', 'xy', '#N/A', '#DIV/0!', '#NUM!'] if self.codes_as_text else ['a', 'b', '', 'xy'])))
             elif k < 0.6:
                 ops.append(self.err())
+            elif k < 0.67:
+                ops.append(self.blank())
             elif k < 0.75:
                 ops.append(('n', r.choice([1, 2, 30])))
             elif k < 0.9 and d > 0:
@@ -131,7 +140,7 @@ def render(t):
         return '"%s"' % t[1]
     if k == 'err':
         return t[3]
-    if k == 'arr':
+    if k in ('arr', 'blank'):
         return t[1]
     if k == 'u':
         return '-(' + render(t[1]) + ')'
@@ -159,6 +168,15 @@ class Arr(object):
 ARR = Arr()
 
 
+class Blank(object):
+    """model value: a blank (the NULL name, a variable holding None, a cell nobody answers for)"""
+    def __repr__(self):
+        return 'BLANK'
+
+
+BLANK = Blank()
+
+
 def numv(v):
     if v is ARR:
         raise Unclaimed('array where a number is needed')
@@ -166,6 +184,8 @@ def numv(v):
         return Fr(int(v))
     if isinstance(v, Fr):
         return v
+    if v is BLANK:
+        return Fr(0)
     raise Unclaimed('non-numeric under arithmetic')
 
 
@@ -179,6 +199,8 @@ def model(t):
         return E(t[1])
     if k == 'arr':
         return ARR
+    if k == 'blank':
+        return BLANK
     if k == 'u':
         v = model(t[1])
         return v if isinstance(v, E) else -numv(v)
@@ -202,8 +224,8 @@ def model(t):
             return a
         if isinstance(b, E):
             return b
-        if isinstance(a, bool) or isinstance(b, bool):
-            raise Unclaimed('logical operand of comparison (C07)')
+        if isinstance(a, bool) or isinstance(b, bool) or a is BLANK or b is BLANK:
+            raise Unclaimed('logical or blank operand of comparison (C07)')
         a, b = numv(a), numv(b)
         return {'<': a < b, '>': a > b, '=': a == b, '<=': a <= b, '>=': a >= b, '<>': a != b}[t[1]]
     if k == 'amp':
@@ -215,6 +237,8 @@ def model(t):
         for v in vals:
             if isinstance(v, str):
                 out += v
+            elif v is BLANK:
+                pass
             elif isinstance(v, Fr) and v.denominator == 1:
                 out += str(v.numerator)
             else:
@@ -234,6 +258,8 @@ def model(t):
         if fn == 'ERROR.TYPE':
             return Fr(CODES8.index(v.code) + 1) if isinstance(v, E) else E('#N/A')
         alt = model(t[3])
+        if v is BLANK or alt is BLANK:
+            raise Unclaimed('blank through IFERROR/IFNA')
         if fn == 'IFERROR':
             return alt if isinstance(v, E) else v
         if fn == 'IFNA':
@@ -247,6 +273,8 @@ def model(t):
                 return v
         if t[1] == 'IDF':
             return vals[0]
+        if any(v is BLANK for v in vals):
+            raise Unclaimed('blank under an aggregate')
         xs = [numv(v) for v in vals]
         if t[1] == 'SUM':
             return sum(xs)
@@ -366,6 +394,7 @@ class Check(BaseCheck):
                 setter(objs[CODES8[int(cell.label[1:]) - 1]])
         e.p.on('callCellValue', on_cell)
         e.p.set_variable('v_arr', [10, 20])
+        e.p.set_variable('v_blank', None)
         e.p.on('callRangeValue', lambda a, b, s: s([[1, 2], [3, 4]]))
         getattr(self, 'c_' + spec['campaign'])(spec, rec)
 
@@ -375,6 +404,8 @@ class Check(BaseCheck):
         if r['error'] is not None:
             return False
         g = r['result']
+        if m is BLANK:
+            return g is None
         if m is ARR:
             return isinstance(g, list)
         if isinstance(m, bool):
@@ -484,7 +515,7 @@ class Check(BaseCheck):
                 f2 = rnd.choice(['IFERROR(%s,1)', 'ISERROR(%s)', 'IFNA(%s,2)', 'SUM(1,%s)', '-%s', '%s=1', '%s&"a"', 'IDF(%s)', '{1,%s}', '(%s)']) % code
             else:
                 import re
-                nums = list(re.finditer(r'(?<![A-Za-z0-9."])\d+(?![A-Za-z0-9."(])', f))
+                nums = list(re.finditer(r'(?<![A-Za-z0-9."$])\d+(?![A-Za-z0-9."(])', f))
                 if not nums:
                     f2 = code
                 else:
